@@ -13,6 +13,7 @@ import EaselModel.Stats.MinDescent
 import EaselModel.Stats.WeibullReal
 import EaselModel.Stats.WeiBinnedReal
 import EaselModel.Stats.GevReal
+import EaselModel.Stats.SxpBinnedReal
 import EaselModel.Stats.TevdReal
 import EaselModel.Stats.ExpBinnedReal
 import EaselModel.Stats.HistExpectReal
@@ -749,5 +750,24 @@ example : ∀ x ∈ (#[(1 : ℝ)] : Array ℝ).toList, GevMain x 0 0 1 := by
   constructor
   · norm_num
   · norm_num
+
+/-! ## round 6: `esl_sxp_FitCompleteBinned` -/
+
+/-- `esl_sxp_FitCompleteBinned`, every histogram state and numeric class: documented status, three parameters, documented location (`phi`
+    after `SetExpectedTail` (`is_tailfit`), else `xmin`, or `LBound(imin)` for rounded data). -/
+theorem sxp_binned_fit_post {α : Type} [Num α] (h : Hist α) (tailfit : Bool) (st : St) (ps : Array α) (hr : sxpFitCompleteBinned h tailfit = .res st ps) :
+    (st = .ok ∨ st = .enohalt ∨ st = .erange ∨ st = .enoresult) ∧ ps.size = 3 ∧
+    ps.getD 0 Num.zero = (if tailfit then h.phi else if h.isRounded then h.lbound h.imin else h.xmin) :=
+  sxpFitBinned_post h tailfit st ps hr
+
+/-- **`sxp_complete_binned_func` = `-Σ_b obs[b]·log(F(ub_b) - F(max(lb_b, μ)))`** over ℝ, `F = esl_sxp_cdf` at `(μ, λ = e^w, τ = e^v)`: minus the
+    multinomial log-likelihood of the binned counts, provided no occupied bin has probability exactly `0` (then the code answers `eslINFINITY`). -/
+theorem sxp_binned_objective_is_neg_loglik (h : Hist ℝ) (bins : List (Int × Nat)) (mu w v : ℝ)
+    (hpos : ∀ ic ∈ bins, ic.2 ≠ 0 → sxpBinProb h mu (Real.exp w) (Real.exp v) ic.1 ≠ 0) :
+    sxpBinnedFunc h bins mu #[w, v] = -(llSxpBinned h bins mu (Real.exp w) (Real.exp v)) :=
+  sxpBinnedFunc_eq h bins mu w v hpos
+
+example (h : Hist ℝ) : ∀ ic ∈ [((3 : Int), (0 : Nat))], ic.2 ≠ 0 → sxpBinProb h 0 (Real.exp 0) (Real.exp 0) ic.1 ≠ 0 := by
+  intro ic hic h0; simp at hic; subst hic; exact absurd rfl h0
 
 end EaselModel.Props.C11
